@@ -45,6 +45,7 @@ class Ctx:
         self.known = []  # KNOWN-FINDING lines
         self.notes = []
         self.inconclusive = []
+        self.digests = {}  # key -> {"digest": str, "case": case}: compared across shards by the parent
         self.t0 = time.time()
         self.deadline = None
         self._viol_keys = set()
@@ -101,6 +102,7 @@ class Ctx:
             "known": self.known,
             "notes": self.notes,
             "inconclusive": self.inconclusive,
+            "digests": self.digests,
             "wall_s": time.time() - self.t0,
         }
 
